@@ -17,6 +17,9 @@
   Corollary with the inherited, NAMED hypothesis:
     `acked_write_visible`            under H_leaderCompleteness (C05) every later-term leader holds the acknowledged entry —
                                      from there C06 (apply) + C11 (read index) give visibility to linearizable reads.
+  Without the inherited hypothesis, over the benign sub-relation (no F8 / F9 trigger):
+    `acked_write_visible_benign`     a write answered with success is in the log of every later-term leader
+                                     (`C05.leader_completeness_partial`).
   The inherited hypothesis is false for the code as it is (C05: F8 acknowledgement before persistence, F9 reset wipe):
     `acked_write_lost`               kernel-checked negation of the unconditional statement: an acknowledged write is
                                      absent from a later leader (witness replayed on the real code,
@@ -149,5 +152,18 @@ theorem acked_write_lost : ¬ AckedDurableStatement := by
 
 -- non-vacuity: a reachable state with an acknowledged write
 example : (run (Cluster.init 3 2) (ackedLostSchedule.take 13)).acked = [(⟨2, 2, 8⟩, 2)] := by decide +kernel
+
+
+/-- C10 without the inherited hypothesis, over the benign sub-relation (no F8 / F9 trigger, `C05.ReachableB`): a write
+    answered with success is in the log of every node that leads in a later term (`C05.leader_completeness_partial`). -/
+theorem acked_write_visible_benign {n cap : Nat} {c : Cluster} (hr : C05.ReachableB n cap c) :
+    ∀ a ∈ c.acked, ∀ j, (c.nodes j).role = .leader → a.2 < (c.nodes j).term → a.1 ∈ (c.nodes j).log := by
+  intro a ha j hrole hlt
+  exact C05.leader_completeness_partial hr a.1 a.2 j
+    (ack_implies_committed (C05.reachableB_reachable hr) a ha) hrole hlt
+
+/-- H_leaderCompleteness holds in every state reachable by benign steps -/
+theorem leaderCompleteness_benign {n cap : Nat} {c : Cluster} (hr : C05.ReachableB n cap c) : H_leaderCompleteness c :=
+  C05.leader_completeness_partial hr
 
 end DEngine.C10
